@@ -2,13 +2,13 @@
    Directives: those of ExtrOcamlBasic (bool, option, unit, list, prod, sumbool, ...)
    and ExtrOcamlString (ascii -> char, string -> char list).  No Extract Constant of
    our own; nat stays the unary inductive type. *)
-From PMC Require Import Model.Fair Model.Memo Model.BExp Model.Parse.
+From PMC Require Import Model.Fair Model.Memo Model.BExp Model.Parse Model.KripkeOps.
 From Coq Require Import ExtrOcamlBasic ExtrOcamlString.
 Extraction "model.ml"
   mk_graph subgraph reversed clone reach_r add_node_r add_edge_r edges sources next_r
   compute_SCCs
   mk_kripke kclone substructure labels_r knext_r all_labels get_fair_states fair_states_ref
-  label_fair_states
+  label_fair_states kapply label_entry
   LNot restrict restrict_ltl restrict_ctl unfair_ctls unfair_ctl height
   pl_ok ctls_state ctl_state ctl_path ltl_path ltl_state arity_ok
   mk cast_to print eq_obj eq_obj_pybool hash_obj
